@@ -643,8 +643,87 @@ func buildDerivedAssets(root string) error {
 			}
 		}
 	}
+	// VoD MPD shapes: other event signalling already present, two video adaptation sets
+	mpdSrc, err := os.ReadFile(filepath.Join(src, "Manifest.mpd"))
+	if err != nil {
+		return err
+	}
+	otherIES := `         <InbandEventStream schemeIdUri="urn:mpeg:dash:event:2012" value="1"/>
+`
+	videoAS := `contentType="video" id="2"`
+	audioAS := `contentType="audio" id="1"`
+	insertAfterOpenTag := func(doc, marker, what string) (string, error) {
+		i := strings.Index(doc, marker)
+		if i < 0 {
+			return "", fmt.Errorf("marker %q not found in the bundled Manifest.mpd", marker)
+		}
+		j := strings.Index(doc[i:], ">")
+		return doc[:i+j+1] + "\n" + what + doc[i+j+1:], nil
+	}
+	shapes := map[string]func(string) (string, error){
+		"testpic_2s_ies_video": func(d string) (string, error) { return insertAfterOpenTag(d, videoAS, otherIES) },
+		"testpic_2s_ies_audio": func(d string) (string, error) { return insertAfterOpenTag(d, audioAS, otherIES) },
+		"testpic_2s_ies_both": func(d string) (string, error) {
+			d, err := insertAfterOpenTag(d, videoAS, otherIES+`         <InbandEventStream schemeIdUri="urn:example:other:2024" value=""/>
+`)
+			if err != nil {
+				return "", err
+			}
+			return insertAfterOpenTag(d, audioAS, otherIES)
+		},
+		"testpic_2s_period_events": func(d string) (string, error) {
+			return insertAfterOpenTag(d, `<Period id="one"`, `      <EventStream schemeIdUri="urn:example:period:events" timescale="1000"><Event presentationTime="0" duration="1000" id="1"/></EventStream>
+`)
+		},
+		"testpic_2s_two_video": func(d string) (string, error) {
+			i := strings.Index(d, "   </Period>")
+			if i < 0 {
+				i = strings.Index(d, "</Period>")
+			}
+			if i < 0 {
+				return "", fmt.Errorf("no </Period>")
+			}
+			as := `      <AdaptationSet contentType="video" id="3" mimeType="video/mp4" segmentAlignment="true" startWithSAP="1" par="16:9">
+         <InbandEventStream schemeIdUri="urn:mpeg:dash:event:2012" value="1"/>
+         <Role schemeIdUri="urn:mpeg:dash:role:2011" value="alternate"/>
+         <SegmentTemplate startNumber="1" initialization="$RepresentationID$/init.mp4" duration="2" media="$RepresentationID$/$Number$.m4s"/>
+         <Representation id="V300b" codecs="avc1.64001e" bandwidth="300000" width="640" height="360" frameRate="60/2" sar="1:1"/>
+      </AdaptationSet>
+`
+			return d[:i] + as + d[i:], nil
+		},
+	}
+	for name, f := range shapes {
+		dst := filepath.Join(root, name)
+		doc, err := f(string(mpdSrc))
+		if err != nil {
+			return fmt.Errorf("%s: %w", name, err)
+		}
+		if err := os.MkdirAll(dst, 0o755); err != nil {
+			return err
+		}
+		if err := os.WriteFile(filepath.Join(dst, "Manifest.mpd"), []byte(doc), 0o644); err != nil {
+			return err
+		}
+		reps := [][2]string{{"V300", "V300"}, {"A48", "A48"}}
+		if name == "testpic_2s_two_video" {
+			reps = append(reps, [2]string{"V300", "V300b"})
+		}
+		for _, rp := range reps {
+			for _, fn := range []string{"init.mp4", "1.m4s", "2.m4s", "3.m4s", "4.m4s"} {
+				if err := copyFile(filepath.Join(src, rp[0], fn), filepath.Join(dst, rp[1], fn)); err != nil {
+					return err
+				}
+			}
+		}
+	}
 	return nil
 }
+
+// mpdShapeAssets: derived assets whose VoD MPD carries other event signalling / several video sets,
+// with the number of video adaptation sets each must have in the live MPD.
+var mpdShapeAssets = map[string]int{"testpic_2s_ies_video": 1, "testpic_2s_ies_audio": 1, "testpic_2s_ies_both": 1,
+	"testpic_2s_period_events": 1, "testpic_2s_two_video": 2, "testpic_2s_encaudio": 1, "testpic_2s_wvtt": 1}
 
 // countEmsg counts the emsg boxes at the top level of a served segment.
 func countEmsg(body []byte) (int, error) {
@@ -1436,13 +1515,14 @@ func runC13(c *lib.Ctx) error {
 			reAS := regexp.MustCompile(`(?s)<AdaptationSet[^>]*contentType="(\w+)".*?</AdaptationSet>`)
 			for _, m := range reAS.FindAllStringSubmatch(string(resp.Body), -1) {
 				isVideo := m[1] == "video"
-				inband := strings.Contains(m[0], `<InbandEventStream schemeIdUri="urn:scte:scte35:2013:bin"`)
+				nInband := strings.Count(m[0], `<InbandEventStream schemeIdUri="urn:scte:scte35:2013:bin"`)
+				inband := nInband > 0
 				idn, id := r.id()
 				in := map[string]any{"kind": "mpd", "url": url, "content_type": m[1]}
 				c.Res.Inputs[id] = in
 				c.Count("mpd-adaptation-set")
-				if inband != (isVideo && n != 0) {
-					c.Fail(id, "mpd-inband-event-stream", fmt.Sprintf("%s: %s adaptation set InbandEventStream=%v with scte35=%d", url, m[1], inband, n), in)
+				if inband != (isVideo && n != 0) || nInband > 1 {
+					c.Fail(id, "mpd-inband-event-stream", fmt.Sprintf("%s: %s adaptation set has %d SCTE-35 InbandEventStream elements with scte35=%d", url, m[1], nInband, n), in)
 				}
 				r.terms = append(r.terms, fmt.Sprintf("CMpd %d %s %s %s", idn, lib.Cbool(isVideo), optZ(np), lib.Cbool(inband)))
 			}
@@ -1641,10 +1721,66 @@ func runC13(c *lib.Ctx) error {
 				}
 			}
 		}
+		// the live MPD of every derived asset: exactly one SCTE-35 InbandEventStream on every video
+		// adaptation set with scte35_1/2/3, none without and none on any other adaptation set, whatever
+		// event signalling the VoD MPD already carries
+		shapeNames := make([]string, 0, len(mpdShapeAssets))
+		for name := range mpdShapeAssets {
+			shapeNames = append(shapeNames, name)
+		}
+		sort.Strings(shapeNames)
+		reAS := regexp.MustCompile(`(?s)<AdaptationSet[^>]*contentType="(\w+)".*?</AdaptationSet>`)
+		for _, name := range shapeNames {
+			for _, mode := range []string{"", "segtimeline_1/"} {
+				for _, n := range []int{0, 1, 2, 3} {
+					if mode != "" && n != 0 && n != 1+rng.Intn(3) {
+						continue
+					}
+					cfg := mode
+					var np *int
+					if n != 0 {
+						cfg += fmt.Sprintf("scte35_%d/", n)
+						nn := n
+						np = &nn
+					}
+					url := fmt.Sprintf("/livesim2/%s%s/Manifest.mpd?nowMS=%d", cfg, name, 100000+rng.Intn(1000000))
+					resp := dls.GetRaw(url)
+					if resp.Status != 200 {
+						return fmt.Errorf("%s: status %d %s", url, resp.Status, resp.Panic)
+					}
+					nVideo := 0
+					for _, m := range reAS.FindAllStringSubmatch(string(resp.Body), -1) {
+						isVideo := m[1] == "video"
+						if isVideo {
+							nVideo++
+						}
+						nInband := strings.Count(m[0], `<InbandEventStream schemeIdUri="urn:scte:scte35:2013:bin"`)
+						idn, id := r.id()
+						in := map[string]any{"kind": "derived-mpd", "url": url, "content_type": m[1], "asset": name}
+						c.Res.Inputs[id] = in
+						c.Count("mpd-adaptation-set:derived")
+						want := 0
+						if isVideo && n != 0 {
+							want = 1
+						}
+						if nInband != want {
+							c.Fail(id, "mpd-inband-event-stream", fmt.Sprintf("%s: the %s adaptation set has %d SCTE-35 InbandEventStream elements with scte35=%d, expected %d (asset %s: its VoD MPD carries other event signalling / several video sets)", url, m[1], nInband, n, want, name), in)
+						}
+						r.terms = append(r.terms, fmt.Sprintf("CMpd %d %s %s %s", idn, lib.Cbool(isVideo), optZ(np), lib.Cbool(nInband > 0)))
+					}
+					if nVideo != mpdShapeAssets[name] {
+						_, id := r.id()
+						in := map[string]any{"kind": "derived-mpd", "url": url, "asset": name}
+						c.Res.Inputs[id] = in
+						c.Fail(id, "mpd-inband-event-stream", fmt.Sprintf("%s: %d video adaptation sets in the live MPD, the VoD MPD has %d", url, nVideo, mpdShapeAssets[name]), in)
+					}
+				}
+			}
+		}
 		// the video of the derived assets carries the events (one minute each)
 		saved := ls
 		ls = dls
-		for _, name := range []string{"testpic_2s_encaudio", "testpic_2s_wvtt"} {
+		for _, name := range []string{"testpic_2s_encaudio", "testpic_2s_wvtt", "testpic_2s_ies_video", "testpic_2s_two_video"} {
 			a, err := loadAsset(dls, name, "Manifest.mpd")
 			if err == nil {
 				n := 1 + rng.Intn(3)
@@ -1773,6 +1909,32 @@ func replayC13(c *lib.Ctx) error {
 	case "consts":
 		sc := readSrcConsts()
 		fmt.Printf("replay C13: constants read from %s: %+v\n", filepath.Join(repoRoot(), "pkg/scte35/scte35.go"), sc)
+	case "derived-mpd":
+		root, cleanup, err := lib.ScratchDir("c13replay")
+		if err != nil {
+			return err
+		}
+		defer cleanup()
+		if err := buildDerivedAssets(root); err != nil {
+			return err
+		}
+		dls, err := lib.NewLivesim(root, nil)
+		if err != nil {
+			return err
+		}
+		resp := dls.GetRaw(kind.URL)
+		fmt.Printf("replay C13: %s -> %d\n%s\n", kind.URL, resp.Status, resp.Body)
+		withScte := strings.Contains(kind.URL, "scte35_")
+		for _, m := range regexp.MustCompile(`(?s)<AdaptationSet[^>]*contentType="(\w+)".*?</AdaptationSet>`).FindAllStringSubmatch(string(resp.Body), -1) {
+			nInband := strings.Count(m[0], `<InbandEventStream schemeIdUri="urn:scte:scte35:2013:bin"`)
+			want := 0
+			if m[1] == "video" && withScte {
+				want = 1
+			}
+			if nInband != want {
+				c.Fail("replay", "mpd-inband-event-stream", fmt.Sprintf("%s adaptation set: %d SCTE-35 InbandEventStream elements, expected %d", m[1], nInband, want), kind)
+			}
+		}
 	case "derived-rep":
 		root, cleanup, err := lib.ScratchDir("c13replay")
 		if err != nil {
